@@ -24,6 +24,8 @@ type libCheck struct {
 	Assumptions  []string
 	RealStub     map[string]interface{}
 	Protect      []string // spec keys the shrinker must not touch
+	// Extra runs an additional, command-level workload of the same property; its findings go through rep
+	Extra func(a *artefacts, tier string, seed uint64, rep *reporter) map[string]interface{}
 }
 
 func (lc *libCheck) run(a *artefacts, tier string, seed uint64) int {
@@ -92,6 +94,11 @@ func (lc *libCheck) run(a *artefacts, tier string, seed uint64) int {
 		rep.report(o.Sig, o.Msg, path)
 	}
 
+	var extra map[string]interface{}
+	if lc.Extra != nil {
+		extra = lc.Extra(a, tier, seed, rep)
+	}
+
 	// 4. evidence
 	states := make([]string, 0, len(m.states))
 	for s := range m.states {
@@ -138,6 +145,9 @@ func (lc *libCheck) run(a *artefacts, tier string, seed uint64) int {
 		"determinism_selftest": fmt.Sprintf("%d seeds x 3 processes (GOMAXPROCS 1,4,16): identical event-log hashes", detN),
 		"real_vs_stub":         lc.RealStub,
 		"tree":                 a.Hash,
+	}
+	if extra != nil {
+		cov["command_level_workload"] = extra
 	}
 	var zero []string
 	for k, v := range probes {
